@@ -1,5 +1,5 @@
 (* Lemmas about model/Watcher.v (property C03). *)
-From Verif Require Import Common RoleTree RoleTree_proofs TaskCmd Watcher.
+From Verif Require Import Common RoleTree RoleTree_proofs TaskCmd Gen_FailureLabel Watcher.
 Open Scope N_scope.
 
 (* ------------------------------------------------------------------ *)
@@ -1019,4 +1019,23 @@ Theorem error_before_subscription s sched :
 Proof.
   intros I W R Q. apply armed_ends_in_error; [apply Inv_step; exact I| |exact Q].
   apply wstart_on_error; assumption.
+Qed.
+
+(* ------------------------------------------------------------------ *)
+(* 11. The label and the route of a failure report do not matter       *)
+(* ------------------------------------------------------------------ *)
+
+Lemma failure_label_in_source : failure_label_irrelevant = true.
+Proof. vm_compute. reflexivity. Qed.
+
+(* whatever reason, source, route and optional fields: a terminal failure state of an owned, locked
+   task is the fault FDead [v] of the model; of a task that is not, nothing *)
+Lemma report_fault_label_free l v :
+  In (fl_state l) [1; 2; 3; 7] ->
+  report_fault l true v = FDead [v] /\ report_fault l false v = FDead [].
+Proof.
+  intro H. unfold report_fault.
+  assert (M : memN (fl_state l) error_case_states = true).
+  { destruct H as [<-|[<-|[<-|[<-|[]]]]]; vm_compute; reflexivity. }
+  rewrite M. split; reflexivity.
 Qed.
